@@ -44,6 +44,7 @@ pub fn baseline(case: &EnumCase, report: &mut Report) -> Option<Baseline> {
             return None;
         }
     };
+    drive::reset_budget();
     let deck = deck49(&cfg.flop);
     let mut deck_index = [255u8; 52];
     for (i, c) in deck.iter().enumerate() {
@@ -214,6 +215,7 @@ fn check_chain(base: &Baseline, cuts: &[usize], report: &mut Report) {
 /// `scope()` called several times: the last call decides.
 fn check_rescope(base: &Baseline, first: Scope, second: Scope, report: &mut Report) {
     let r = catch(|| {
+        drive::allow(&base.ranges);
         let mut e = espada::evaluator::FlopExhaustiveEvaluator::new(&drive::board_of(&base.cfg.flop), &base.ranges);
         e.scope(first.0 .0, first.0 .1, first.1 .0, first.1 .1);
         e.scope(second.0 .0, second.0 .1, second.1 .0, second.1 .1);
